@@ -5,6 +5,7 @@ Gen/Copy.lean:
   tagInitParams        parameters of Tag.__init__ (without self), in order
   copySelfArgs         (parameter of Tag.__init__, source text of the argument), sorted by parameter, for every argument of the
                        `type(self)(...)` call in Tag.copy_self, positional ones resolved against the signature
+  copySelfAfter        source text (ast.unparse) of the statements of Tag.copy_self after the constructor call
   copySelfSetattrs     the attribute names of the `for attr in (...): setattr(clone, attr, getattr(self, attr))` loop
   soupCopySelfArgs     source text of the arguments of the `type(self)(...)` call in BeautifulSoup.copy_self
   soupCopySelfAssigns  attributes assigned on the clone afterwards (`clone.X = self.X`)
@@ -49,6 +50,18 @@ def gen_copy():
             if "setattr(clone" in body_src and "getattr(self" in body_src:
                 setattrs += [e.value for e in n.iter.elts if isinstance(e, ast.Constant)]
     setattrs.sort()
+    # what copy_self does to the clone after constructing it (comments and layout do not matter: ast.unparse)
+    after = []
+    seen_ctor = False
+    for st in f.body:
+        if isinstance(st, ast.Expr) and isinstance(st.value, ast.Constant):
+            continue    # docstring
+        if not seen_ctor:
+            seen_ctor = any(n is call for n in ast.walk(st))
+            continue
+        if isinstance(st, ast.Return):
+            continue
+        after.append(ast.unparse(st))
     g = _fn_ast(BeautifulSoup.copy_self)
     scall = _ctor_call(g)
     sargs = [ast.unparse(a) for a in scall.args] + [f"{k.arg}={ast.unparse(k.value)}" for k in scall.keywords]
@@ -64,6 +77,8 @@ def gen_copy():
     t += "def copySelfArgs : List (BS.PStr × BS.PStr) := [" + ", ".join(f"({lean_str(p)}, {lean_str(v)})" for p, v in args) + "]\n"
     t += f"/-- {', '.join(setattrs)} -/\n"
     t += "def copySelfSetattrs : List BS.PStr := [" + ", ".join(lean_str(p) for p in setattrs) + "]\n"
+    t += "/-- the statements of Tag.copy_self between the constructor call and `return clone` -/\n"
+    t += "def copySelfAfter : List BS.PStr := [" + ", ".join(lean_str(p) for p in after) + "]\n"
     t += "/-- " + "; ".join(sargs) + " -/\n"
     t += "def soupCopySelfArgs : List BS.PStr := [" + ", ".join(lean_str(p) for p in sargs) + "]\n"
     t += "/-- " + "; ".join(f"clone.{p}={v}" for p, v in sassign) + " -/\n"
